@@ -89,13 +89,10 @@ class BayesianModelInference(Inference):
         list: List of np.array with each element representing the reduced
                 values correponding to the states in sc_values.
         """
-        try:
-            values = [
-                variable_cpd.get_state_no(variable_evid[i], sc[i])
-                for i in range(len(sc))
-            ]
-        except KeyError:
-            values = sc
+        # `sc` holds state *numbers* (every caller passes the positions it sampled or
+        # translated itself).  Looking them up as state names first picks the wrong parent
+        # configuration whenever the names are integers other than 0..k-1, e.g. [1, 2, 3].
+        values = sc
 
         slice_ = [slice(None) for i in range(len(variable_cpd.variables))]
         for i, index in enumerate(reduce_index):
